@@ -39,7 +39,7 @@ REQUIRED = {
         Frustum_ZToDepth_more Frustum_ZToDepthExc_more_ok
         Frustum_screenRadiusExc_ok Frustum_screenRadiusExc_error Frustum_worldRadiusExc_ok Frustum_worldRadiusExc_error
         Frustum_radiusExc_tight Frustum_screenRadiusExc_never Frustum_worldRadiusExc_never
-        Frustum_setFovExc_ok Frustum_setFovExc_error
+        Frustum_setFovExc_ok Frustum_setFovExc_error Frustum_setFovExcFromOrtho_ok Frustum_setFovFromOrtho_eq Frustum_setFovExcFromOrtho_eq
         M22.det_ne_zero_of_guards M33.det_of_affine M33.det_ne_zero_of_guards M33.det2_ne_zero_of_guards M44_eta""".split(),
     "ImathVerif.Props.C07GJ": ["M33_gjInverseT_unexc", "M33_gjInverseT_kind", "M33_gjInverseT_ok", "M33_gjInverseT_error", "M33_gjInverseF_eq",
                                "M33_gjInvert_eq",
